@@ -183,6 +183,8 @@ def run(rep: Report) -> None:
     rep.rule("R08.3", "per-query state: no mutable default arguments and no module-level scratch containers in conversions", floor=2)
     rep.rule("R08.4", "determinism: no iteration over sets of identity-hashed objects and no id()-dependent ordering on the "
              "conversion path (id-sorted intern keys excepted)", floor=1)
+    rep.rule("R08.7", "no function changes interpreter-global numeric state (decimal context)", floor=1)
+    rep.rule("R05.7", "Quantity.in_unit is conversions.convert(self, unit), unchanged, on every path (shared with C05): nothing is set up or torn down around a query", floor=1)
     rep.rule("R08.6", "no memoised function is keyed by numbers of several types (the result of a query must not depend on the type "
              "of an earlier query's magnitude)", floor=5)
     rep.rule("R08.5", "objects that are (part of) a memoised result are never mutated in place", floor=1)
@@ -311,6 +313,28 @@ def run(rep: Report) -> None:
         rep.ok("R08.4", "conversion-path", note=f"{len(reach.reached)} functions, no set iteration / id()")
     from ..quantity_rules import check_numeric_memo
     check_numeric_memo(rep, prog, resolver, "R08.6")
+    # R08.7: interpreter-global numeric state
+    n7 = 0
+    for q7, f7 in sorted(prog.functions.items()):
+        if f7.module in ("hypothesis", "pytest"):
+            continue
+        for st in ast.walk(f7.node):
+            tg = st.targets if isinstance(st, ast.Assign) else ([st.target] if isinstance(st, (ast.AugAssign, ast.AnnAssign)) else [])
+            hit = None
+            for t in tg:
+                if isinstance(t, ast.Attribute) and any(isinstance(x, ast.Call) and ast.unparse(x.func).split(".")[-1] == "getcontext" for x in ast.walk(t.value)):
+                    hit = st
+            if isinstance(st, ast.Call) and ast.unparse(st.func).split(".")[-1] in ("setcontext", "setswitchinterval", "setrecursionlimit", "seed"):
+                hit = st
+            if hit is not None:
+                n7 += 1
+                rep.fail("R08.7", f"{q7}:{ast.unparse(hit)[:40]}", f"`{ast.unparse(hit)[:60]}` in {q7} changes interpreter-global numeric state (the thread's decimal context): "
+                         "unless it is restored on every exit - including the ConversionNotFound that == and < swallow - later conversions compute with "
+                         "another precision, i.e. results depend on earlier queries", f7.where(hit))
+    if n7 == 0:
+        rep.ok("R08.7", "package", note="no function assigns into decimal.getcontext() or calls setcontext")
+    from .c05 import check_in_unit
+    check_in_unit(rep, prog, "R05.7")
     # R08.5
     t = taint_analysis(prog, resolver, memos)
     for f, node, how in t:
